@@ -134,7 +134,8 @@ class Fam(core.Family):
         return rec
 
     def describe(self, inp, rec):
-        return f"k={inp['k']} prefix={bytes(inp['pre'])!r} seqs={[bytes(s) for s in inp['seqs']][:3]!r}"
+        show = lambda s_: bytes(s_) if max(s_, default=0) < 256 else ''.join(chr(c) for c in s_)
+        return f"k={inp['k']} prefix={bytes(inp['pre'])!r} seqs={[show(s_) for s_ in inp['seqs']][:3]!r}"
 
 
 KP = [(1, b'A'), (2, b'A'), (3, b'A'), (1, b'AT'), (2, b'AT'), (3, b'AT'), (1, b'AA'), (2, b'AA'), (1, b'CG'), (2, b'CG'),
@@ -227,7 +228,12 @@ class Random(Fam):
                 ln = rng.randint(0, 400) if rng.random() < 0.97 else rng.randint(1000, 5000)
                 if rng.random() < 0.1:
                     ln = rng.randint(0, len(pre) + k + 1)
-                seqs.append(list(planted(rng, ln, k, pre, alpha, 0.03)))
+                sq = planted(rng, ln, k, pre, alpha, 0.03)
+                if rng.random() < 0.06:
+                    # white space is just another non-nucleotide symbol, also at either end of a sequence given as text
+                    ws = bytes(rng.choice(b' \t\n\r\x0b\x0c') for _ in range(rng.randint(1, 3)))
+                    sq = (ws + sq) if rng.random() < 0.5 else (sq + ws) if rng.random() < 0.5 else (ws + sq + ws)
+                seqs.append(list(sq))
             accs = ['set', 'default']
             if k <= 10 or (k <= 12 and i % 50 == 0):
                 accs.append('array')
